@@ -63,6 +63,10 @@ func TestVerif_C30(t *testing.T) {
 		r.Count("activations_failed_injected", int64(out.Failed))
 		r.Count("deactivations", int64(out.Deacts))
 		r.Count("registry_ops_on_round_keys", int64(out.RegOps))
+		r.Count("registry_history_ops_replayed_against_nx_register", int64(out.Replayed))
+		if out.ReplayBad != "" {
+			r.Inconclusive("round %d (%s): the fake registry's recorded history is not a legal sequential history: %s", i, scen.Name, out.ReplayBad)
+		}
 		r.Count("registry_faults_injected", out.Injected)
 		r.Count("holds_hit", out.GatesHit)
 		r.Count("delays_injected", out.Delays)
